@@ -54,14 +54,14 @@ func (v *VerifGroup) Lists() (connected, kept, known []boson.Address) {
 }
 
 func (v *VerifGroup) SetOption(o model.ConfigNodeGroup) { v.g.update(o) }
-func (v *VerifGroup) Option() model.ConfigNodeGroup      { return v.g.option }
-func (v *VerifGroup) SetMulticastSub(on bool)            { v.g.multicastSub = on }
+func (v *VerifGroup) Option() model.ConfigNodeGroup     { return v.g.option }
+func (v *VerifGroup) SetMulticastSub(on bool)           { v.g.multicastSub = on }
 
 // VerifResetCache empties the package-global cache (Multicast_/onMulticast_ de-duplication
 // keys and the notifyGroupPeers snapshot).
 func VerifResetCache() { _ = cache.Clear(cacheCtx) }
 
-// VerifSeen reports whether the two de-duplication keys of (origin,id) are present.
+// VerifSeen reports whether a key of the package-global cache is present.
 func VerifSeen(key string) bool {
 	has, _ := cache.Contains(cacheCtx, key)
 	return has
